@@ -213,3 +213,156 @@ Theorem C02_solve_near_optimal_history_partial0 fuel s s' s2 tau :
     obj (svars s') (place_of (final_positions s')) - obj (svars s') y <= tau_bound s' tau.
 Proof. exact (solve_near_optimal_history_partial0 fuel s s' s2 tau). Qed.
 Print Assumptions C02_solve_near_optimal_history_partial0.
+
+(* ================= fourth round (Vpsc/VpscFresh.v): the two state hypotheses of the history theorem are invariants *)
+From Adapt Require Import Vpsc.VpscModelW Vpsc.VpscWeight Vpsc.VpscStatsW Vpsc.VpscFresh.
+
+(* in every reachable state Blocks::m_blocks lists the block of every variable, that block is not deleted, and the lm
+   vector has one entry per constraint *)
+Theorem C02_reachable_live_lm s : reachable_wf s -> live s /\ length (clm s) = length (scons s).
+Proof. exact (reachable_live_LL s). Qed.
+Print Assumptions C02_reachable_live_lm.
+
+(* moveBlocks (the first thing satisfy() does) makes AB / AD of every block that owns its variables the sums over the
+   block for the current offsets and desired positions - from `live` alone, whatever was edited before *)
+Theorem C02_move_blocks_stats s : book s -> live s -> HS (move_blocks s).
+Proof. exact (move_blocks_HS s). Qed.
+Print Assumptions C02_move_blocks_stats.
+
+(* one iteration of the satisfy loop (merge / flag / split + merge / split + requeue) keeps: listed live blocks,
+   statistics A2 / AB / AD up to date, length of the lm vector; all_pos (VpscStatsW.v) is the weight-independent part of
+   VpscStats.all_ok: every block non-empty, scale > 0, A2 > 0, posn = (AD - AB) / A2 *)
+Theorem C02_satisfy_step_stats s b s' : inv s -> all_pos s -> FI s -> satisfy_step s = Ok (b, s') -> FI s'.
+Proof. exact (satisfy_step_FI s b s'). Qed.
+Print Assumptions C02_satisfy_step_stats.
+
+(* whenever solve() / satisfy() return, in any history, the block statistics of every variable's block are up to date
+   (all_fresh) and the lm vector has the right length *)
+Theorem C02_solve_return_fresh fuel s s' :
+  reachable_wf s -> inc_solve fuel s = Ok s' -> all_fresh s' /\ length (clm s') = length (scons s').
+Proof. exact (solve_return_fresh fuel s s'). Qed.
+Print Assumptions C02_solve_return_fresh.
+Theorem C02_satisfy_return_fresh fuel s s' :
+  reachable_wf s -> inc_satisfy fuel s = Ok s' -> all_fresh s' /\ length (clm s') = length (scons s').
+Proof. exact (satisfy_return_fresh fuel s s'). Qed.
+Print Assumptions C02_satisfy_return_fresh.
+
+(* C02_solve_near_optimal_history: for EVERY history of ops from a fresh solver over well-formed variables and every
+   solve() that returns: with the multipliers recomputed by findMinLM on every block, the stationarity equation holds
+   exactly at every variable, and if no recomputed multiplier of an active inequality is below -tau the objective exceeds
+   that of every feasible placement by at most tau_bound.  No hypothesis on the returned state. *)
+Theorem C02_solve_near_optimal_history fuel s s' s2 tau :
+  reachable_wf s -> inc_solve fuel s = Ok s' ->
+  relm s' = Ok s2 -> 0 <= tau ->
+  (forall c, (c < length (scons s'))%nat -> act_of s' c = true -> ceq (con_of s' c) = false -> - tau <= lm_of s2 c) ->
+  (forall i, (i < length (svars s'))%nat -> stat_res (svars s') (lcons_of s2) (xs_of s') i == 0) /\
+  forall y, feasible (svars s') (scons s') y ->
+    obj (svars s') (place_of (final_positions s')) - obj (svars s') y <= tau_bound s' tau.
+Proof. exact (solve_near_optimal_history fuel s s' s2 tau). Qed.
+Print Assumptions C02_solve_near_optimal_history.
+
+(* non-vacuity: solve; move a desired position (all_fresh FAILS in that state: AD is stale); add an inequality; solve
+   again (split at constraint 0, merge across the new constraint): returned state fresh, stationary, optimal *)
+Example C02_solve_near_optimal_history_example :
+  reachable_wf ex2_s3 /\ ~ all_fresh ex2_s2 /\
+  inc_solve 100 ex2_s3 = Ok ex2_ret /\ relm ex2_ret = Ok ex2_relm /\
+  all_fresh ex2_ret /\ length (clm ex2_ret) = length (scons ex2_ret) /\
+  act_of ex2_ret 0 = false /\ act_of ex2_ret 1 = true /\ act_of ex2_ret 2 = true /\
+  (forall i, (i < 3)%nat -> stat_res (svars ex2_ret) (lcons_of ex2_relm) (xs_of ex2_ret) i == 0) /\
+  (forall y, feasible (svars ex2_ret) (scons ex2_ret) y ->
+     obj (svars ex2_ret) (place_of (final_positions ex2_ret)) - obj (svars ex2_ret) y <= tau_bound ex2_ret 0).
+Proof. exact solve_near_optimal_history_example. Qed.
+Print Assumptions C02_solve_near_optimal_history_example.
+
+(* ================= fourth round, part 2 (Vpsc/VpscMinLM.v): the solver's own exit test *)
+From Adapt Require Import Vpsc.VpscMinLM.
+
+(* Block::findMinLM returns the minimum: None iff the block has no active inequality, otherwise an active inequality of
+   the block whose (freshly computed) multiplier is <= that of every active inequality of the block.  No statistics
+   hypothesis: the walk order and the update of min_lm after each write are all that matters *)
+Theorem C02_find_min_lm_min s b mn s' :
+  book s -> act_inv s -> forest s -> (forall i, ~ scl (var_of s i) == 0) ->
+  (front s b < length (svars s))%nat -> blk_of s (front s b) = b -> length (clm s) = length (scons s) ->
+  find_min_lm s b = Ok (mn, s') ->
+  match mn with
+  | None => forall e, Eof s b e -> ceq (con_of s e) = true
+  | Some m => Eof s b m /\ ceq (con_of s m) = false /\
+              forall e, Eof s b e -> ceq (con_of s e) = false -> lm_of s' m <= lm_of s' e
+  end.
+Proof. exact (find_min_lm_min_spec s b mn s'). Qed.
+Print Assumptions C02_find_min_lm_min.
+
+(* C02_split_blocks_exit_kkt derived from the solver's own test: splitBlocks with splitCnt = 0 leaves a state whose
+   stored multipliers satisfy stationarity exactly, are >= -1e-4 on every active inequality, and whose objective exceeds
+   that of every feasible placement by at most sum_i (scl_i * 1e-4 * deg_i)^2 / (4 w_i)   (exit_kkt, VpscMinLM.v) *)
+Theorem C02_split_blocks_quiet_kkt s s' :
+  inv s -> all_pos s -> live s -> length (clm s) = length (scons s) -> split_blocks s = Ok (s', O) -> exit_kkt s' s'.
+Proof. exact (split_blocks_quiet_kkt s s'). Qed.
+Print Assumptions C02_split_blocks_quiet_kkt.
+
+(* a satisfy() that splits nothing, started from a state satisfy() returned (statistics up to date, loop exit condition
+   met), does not merge or split afterwards: moveBlocks moves nothing, the satisfy loop is idle, the package survives *)
+Theorem C02_satisfy_quiet_kkt fuel s s' :
+  inv s -> all_pos s -> FI s -> exit_ok s -> inc_satisfy_cnt fuel s = Ok (s', O) -> exit_kkt s' s'.
+Proof. exact (inc_satisfy_cnt_quiet_kkt fuel s s'). Qed.
+Print Assumptions C02_satisfy_quiet_kkt.
+
+(* what solve()'s exit guarantees, for every history (inc_solve_k = inc_solve instrumented with the number k of in-loop
+   satisfy() calls and the exit taken): left through the test => exit_kkt of the returned state with its stored
+   multipliers; otherwise exactly MAXTRIES = 100 in-loop calls were made and solve() gave up *)
+Theorem C02_solve_exit_guarantee fuel s s' :
+  reachable_wf s -> inc_solve fuel s = Ok s' ->
+  exists k bt, inc_solve_k fuel s = Ok (s', k, bt) /\
+               (bt = true -> exit_kkt s' s') /\ (bt = false -> k = MAXTRIES).
+Proof. exact (solve_exit_guarantee fuel s s'). Qed.
+Print Assumptions C02_solve_exit_guarantee.
+
+Example C02_find_min_lm_min_example :
+  find_min_lm ex2_ret 4 = Ok (Some 2%nat, ex2_fm) /\ Eof ex2_ret 4 2 /\ Eof ex2_ret 4 1 /\ ceq (con_of ex2_ret 1) = true /\
+  forall e, Eof ex2_ret 4 e -> ceq (con_of ex2_ret e) = false -> lm_of ex2_fm 2 <= lm_of ex2_fm e.
+Proof. exact find_min_lm_min_example. Qed.
+Print Assumptions C02_find_min_lm_min_example.
+Example C02_solve_exit_guarantee_example :
+  inc_solve_k 100 ex2_s3 = Ok (ex2_ret, 1%nat, true) /\ exit_kkt ex2_ret ex2_ret /\
+  split_blocks ex2_ret = Ok (ex2_sb, O) /\ exit_kkt ex2_sb ex2_sb /\ act_of ex2_sb 2 = true /\ lm_of ex2_sb 2 == 12 # 5.
+Proof. exact solve_exit_guarantee_example. Qed.
+Print Assumptions C02_solve_exit_guarantee_example.
+
+(* ================= fourth round, part 3 (Vpsc/VpscStatsW.v): histories that also change Variable::weight between solves
+   (op SetWeight of VpscModelW.v; reachable_ww = from a fresh solver over well-formed variables, weights set > 0) *)
+Theorem C02_weight_history_stats_pos s : reachable_ww s -> all_pos s.
+Proof. exact (reachable_ww_all_pos s). Qed.
+Print Assumptions C02_weight_history_stats_pos.
+
+Theorem C02_solve_return_fresh_weight_history fuel s s' :
+  reachable_ww s -> inc_solve fuel s = Ok s' -> all_fresh s' /\ length (clm s') = length (scons s').
+Proof. exact (solve_return_fresh_w fuel s s'). Qed.
+Print Assumptions C02_solve_return_fresh_weight_history.
+
+Theorem C02_solve_near_optimal_weight_history fuel s s' s2 tau :
+  reachable_ww s -> inc_solve fuel s = Ok s' ->
+  relm s' = Ok s2 -> 0 <= tau ->
+  (forall c, (c < length (scons s'))%nat -> act_of s' c = true -> ceq (con_of s' c) = false -> - tau <= lm_of s2 c) ->
+  (forall i, (i < length (svars s'))%nat -> stat_res (svars s') (lcons_of s2) (xs_of s') i == 0) /\
+  forall y, feasible (svars s') (scons s') y ->
+    obj (svars s') (place_of (final_positions s')) - obj (svars s') y <= tau_bound s' tau.
+Proof. exact (solve_near_optimal_history_w fuel s s' s2 tau). Qed.
+Print Assumptions C02_solve_near_optimal_weight_history.
+
+Theorem C02_solve_exit_guarantee_weight_history fuel s s' :
+  reachable_ww s -> inc_solve fuel s = Ok s' ->
+  exists k bt, inc_solve_k fuel s = Ok (s', k, bt) /\
+               (bt = true -> exit_kkt s' s') /\ (bt = false -> k = MAXTRIES).
+Proof. exact (solve_exit_guarantee_w fuel s s'). Qed.
+Print Assumptions C02_solve_exit_guarantee_weight_history.
+
+(* non-vacuity: the pin idiom (solve; weight of v0 := 1000 - all_fresh FAILS in that state; solve again) *)
+Example C02_solve_near_optimal_weight_history_example :
+  reachable_ww wx2 /\ ~ all_fresh wx2 /\ inc_solve 100 wx2 = Ok wx3 /\ relm wx3 = Ok wxr /\
+  all_fresh wx3 /\
+  final_positions wx3 = [10024 # 1003; 11027 # 1003; 12030 # 1003; 13033 # 1003] /\
+  (forall i, (i < length (svars wx3))%nat -> stat_res (svars wx3) (lcons_of wxr) (xs_of wx3) i == 0) /\
+  (forall y, feasible (svars wx3) (scons wx3) y ->
+     obj (svars wx3) (place_of (final_positions wx3)) - obj (svars wx3) y <= tau_bound wx3 0).
+Proof. exact solve_near_optimal_history_w_example. Qed.
+Print Assumptions C02_solve_near_optimal_weight_history_example.
